@@ -219,10 +219,11 @@ func init() {
 			{Src: "engines/shims/device_shim.go.txt", Dst: "device/zz_verif_shim.go", Pkg: "device"},
 			{Src: "engines/shims/kfmt_shim.go.txt", Dst: "kfmt/zz_verif_shim.go", Pkg: "kfmt"},
 			{Src: "engines/shims/tty_shim.go.txt", Dst: "device/tty/zz_verif_shim.go", Pkg: "tty"},
+			{Src: "engines/shims/multiboot_shim.go.txt", Dst: "multiboot/zz_verif_shim.go", Pkg: "multiboot"},
 		},
 		Anchors: []string{"kernel/hal/hal.go", "kernel/device/driver.go", "kernel/kfmt/ringbuf.go", "kernel/kfmt/fmt.go", "kernel/kfmt/prefix_writer.go", "kernel/device/tty/vt.go"},
 		Real:    []string{"hal.DetectHardware / probe / onDriverInit / onConsoleInit / linkTTYToConsole", "device.DriverInfoList sorting", "kfmt.Printf / Fprintf, the early ring buffer, SetOutputSink, PrefixWriter", "tty.VT behind a recording wrapper"},
-		Stub:    []string{"mock drivers (plain, console, terminal) whose probe/initialisation outcome is a fault decision and which log unique tokens", "cell-grid console"},
+		Stub:    []string{"mock drivers (plain, console, terminal) whose probe/initialisation outcome is a fault decision and which log unique tokens", "cell-grid console, in a third of the cases one that - like the shipped framebuffer console - has a size in characters only after the HAL has set its font (boot command line with/without consoleLogo/consoleFont options)"},
 	})
 	addProp(&propSpec{
 		ID: "C16", Engine: "hal", Level: "exploration",
